@@ -123,7 +123,7 @@ def merge_sliceto_slice(args):
     for i, v in non_slice.items():
         simp_sources.append((i, v))
 
-    simp_sources.sort()
+    simp_sources.sort(key=lambda x: x[0])
 
     simp_sources = [x[1] for x in simp_sources]
     return simp_sources
